@@ -66,48 +66,75 @@ mod verif_extdata {
         starts_with(ext, b"data") || starts_with(ext, b"onnx_data")
     }
 
-    fn check_predicate<const N: usize>(bytes: [u8; N]) {
-        let n: usize = kani::any();
-        kani::assume(n <= N);
-        let s = &bytes[..n];
+    /// `true => spec` for one byte string (every byte value is allowed in a Unix path).
+    fn check_predicate(s: &[u8]) -> bool {
         let allowed = is_allowed_external_data_path(Path::new(std::ffi::OsStr::from_bytes(s)));
         if allowed {
             assert!(spec_allowed(s), "path accepted although it is not a plain data-file name inside the model directory");
         }
-        kani::cover!(allowed);
-        kani::cover!(!allowed && n == N);
+        allowed
     }
 
-    pub const N_ANY: usize = 7;
+    /// every byte string of exactly N bytes (incl. NUL, backslash, colon, non-UTF-8)
+    fn check_all_strings<const N: usize>() {
+        let bytes: [u8; N] = kani::any();
+        let _ = check_predicate(&bytes);
+    }
 
-    /// every byte string of length <= N_ANY (incl. NUL, '\\', ':', non-UTF-8)
+    #[kani::proof]
+    #[kani::unwind(4)]
+    pub fn path_predicate_len1() { check_all_strings::<1>() }
+    #[kani::proof]
+    #[kani::unwind(5)]
+    pub fn path_predicate_len2() { check_all_strings::<2>() }
+    #[kani::proof]
+    #[kani::unwind(6)]
+    pub fn path_predicate_len3() { check_all_strings::<3>() }
+    #[kani::proof]
+    #[kani::unwind(7)]
+    pub fn path_predicate_len4() { check_all_strings::<4>() }
+
+    /// "?m.data": any first byte in front of a well-formed name (absolute path, "./", ...)
     #[kani::proof]
     #[kani::unwind(10)]
-    pub fn path_predicate_any_bytes() {
-        let bytes: [u8; N_ANY] = kani::any();
-        check_predicate(bytes);
+    pub fn path_predicate_any_first_byte() {
+        let x: u8 = kani::any();
+        let bytes = [x, b'm', b'.', b'd', b'a', b't', b'a'];
+        let allowed = check_predicate(&bytes);
+        kani::cover!(allowed);
+        kani::cover!(!allowed);
     }
 
-    pub const N_ALPHA: usize = 12;
-    const ALPHABET: [u8; 16] = [
-        b'/', b'.', b'\\', b':', 0, b'a', b'd', b't', b'o', b'n', b'x', b'_', b'1', b' ', 0xC3, 0xA9,
+    /// "d?m.data": any byte between two name characters (separator => sub-directory)
+    #[kani::proof]
+    #[kani::unwind(11)]
+    pub fn path_predicate_any_inner_byte() {
+        let x: u8 = kani::any();
+        let bytes = [b'd', x, b'm', b'.', b'd', b'a', b't', b'a'];
+        let allowed = check_predicate(&bytes);
+        kani::cover!(allowed);
+        kani::cover!(!allowed);
+    }
+
+    /// Concrete adversarial and well-formed locations (incl. the longer recognised extensions).
+    const SAMPLES: [&str; 14] = [
+        "m.data", "m.onnx_data_1", "m.onnx.data", "m.data/", "m.data/.",
+        "../m.data", "/m.data", "d/m.data", "m.data/..", "d/../m.data", "./../m.data",
+        "m.data/x", "..data/../m", ".data",
     ];
 
-    /// strings of length <= N_ALPHA over an alphabet that can spell "x.onnx_data_1", separators,
-    /// "..", Windows-style prefixes, NUL and a two-byte UTF-8 character
     #[kani::proof]
-    #[kani::unwind(15)]
-    pub fn path_predicate_alphabet() {
-        let mut bytes = [0u8; N_ALPHA];
+    #[kani::unwind(16)]
+    pub fn path_predicate_samples() {
+        let mut n_allowed = 0;
         let mut i = 0;
-        while i < N_ALPHA {
-            let k: u8 = kani::any();
-            kani::assume((k as usize) < ALPHABET.len());
-            bytes[i] = ALPHABET[k as usize];
+        while i < SAMPLES.len() {
+            if check_predicate(SAMPLES[i].as_bytes()) {
+                n_allowed += 1;
+            }
             i += 1;
         }
-        check_predicate(bytes);
-        kani::cover!(bytes[2] == b'o' && bytes[10] == b'a');
+        kani::cover!(n_allowed >= 3);
     }
 
     // ------------------------------------------------------------------ loaders
@@ -178,68 +205,6 @@ mod verif_extdata {
         let length: u64 = kani::any();
         let r = loader.load(&DataLocation { path: GOOD.to_string(), offset, length });
         check_range(r, &storage, k, offset, length);
-    }
-
-    /// Locations the predicate rejects (checked against the real predicate first, so this harness
-    /// only decides "the loader consults the predicate before using the location").
-    const BAD: [&str; 6] = ["../m.data", "/m.data", "d/m.data", "m.data/..", "m.txt", ""];
-
-    #[kani::proof]
-    #[kani::unwind(12)]
-    #[kani::stub(std::hash::RandomState::new, fixed_random_state)]
-    pub fn mem_loader_path_gate() {
-        let mut i = 0;
-        while i < BAD.len() {
-            let bad = BAD[i];
-            assert!(!is_allowed_external_data_path(Path::new(bad)));
-            // the data *is* registered under the bad name: only the path check can refuse it
-            let storage = Arc::new(ConstantStorage::Buffer(vec![0u8; 4]));
-            let mut map = HashMap::new();
-            map.insert(bad.to_string(), storage);
-            let loader = MemLoader::new(map);
-            let r = loader.load(&DataLocation { path: bad.to_string(), offset: 0, length: 4 });
-            assert!(r.is_err(), "MemLoader served a disallowed location");
-            i += 1;
-        }
-    }
-
-    #[cfg(feature = "mmap")]
-    #[kani::proof]
-    #[kani::unwind(12)]
-    #[kani::stub(std::hash::RandomState::new, fixed_random_state)]
-    pub fn mmap_loader_path_gate() {
-        let mut i = 0;
-        while i < BAD.len() {
-            let bad = BAD[i];
-            let storage = Arc::new(ConstantStorage::Buffer(vec![0u8; 4]));
-            let mut map: HashMap<PathBuf, (PathBuf, Arc<ConstantStorage>)> = HashMap::new();
-            map.insert(PathBuf::from(bad), (PathBuf::from(bad), storage));
-            let loader = MmapLoader { dir_path: PathBuf::new(), mmaps: RefCell::new(map) };
-            let r = loader.load(&DataLocation { path: bad.to_string(), offset: 0, length: 4 });
-            assert!(r.is_err(), "MmapLoader served a disallowed location");
-            i += 1;
-        }
-    }
-
-    /// FileLoader: a rejected location or an over-long length is an error *before* any file-system
-    /// access (File::open is a foreign call: reaching it would fail this harness as unsupported).
-    #[kani::proof]
-    #[kani::unwind(12)]
-    #[kani::stub(std::hash::RandomState::new, fixed_random_state)]
-    pub fn file_loader_gates() {
-        let loader = FileLoader { dir_path: PathBuf::from("/models"), files: RefCell::new(HashMap::new()) };
-        let mut i = 0;
-        while i < BAD.len() {
-            let r = loader.read(&DataLocation { path: BAD[i].to_string(), offset: 0, length: 4 });
-            assert!(r.is_err(), "FileLoader accepted a disallowed location");
-            i += 1;
-        }
-        let offset: u64 = kani::any();
-        let length: u64 = kani::any();
-        kani::assume(length > isize::MAX as u64);
-        let r = loader.read(&DataLocation { path: GOOD.to_string(), offset, length });
-        assert!(r.is_err(), "FileLoader accepted a length above isize::MAX");
-        kani::cover!(length == u64::MAX);
     }
 
     // ------------------------------------------------------------------ read_fill
